@@ -4,7 +4,7 @@ and (re)builds the detection matrix: for every seeded change, apply it to a scra
 its property (and related ones) against that worktree through VERIF_REPO, remove the worktree.  /repo itself is never touched."""
 import json, os, shutil, subprocess, sys
 
-SRCS = [("/tmp/seeded", 1), ("/tmp/seeded2", 2), ("/tmp/seeded3", 3), ("/tmp/seeded4", 4), ("/tmp/seeded5", 5)]
+SRCS = [("/tmp/seeded", 1), ("/tmp/seeded2", 2), ("/tmp/seeded3", 3), ("/tmp/seeded4", 4), ("/tmp/seeded5", 5), ("/tmp/seeded6", 6)]
 VERIF = os.path.dirname(os.path.dirname(os.path.abspath(__file__)))
 DST = os.path.join(VERIF, "seeded")
 RELATED = {"C02": ["C14"], "C03": ["C02", "C14"], "C14": ["C02"], "C10": ["C09"], "C18": [], "C08": [], "C07": ["C08"], "C09": ["C14"], "C11": ["C12"], "C12": ["C13"], "C13": ["C12"]}
